@@ -26,6 +26,18 @@ CHECKS = {
    text="Exhaustive enumeration of all directive/marker sequences up to length 6 (thorough 7) over two macro names, evaluated by a reference preprocessor (RefPP): for well-nested inputs the delivered non-trivia tokens must be exactly the selected markers with zero errors; unterminated conditionals and nameless directives must be reported. Random nestings to depth 6 with CRLF and trailing comments.",
    note="RefPP is the trusted reference; inputs with stray #else/#endif are not asserted",
    technique="exhaustive small-scope enumeration against a reference evaluator"),
+ "C03": dict(cat="exploration", design="§5 C03",
+   text="Totality oracle (catch_unwind, supervisor process for aborts/stack overflows, deterministic budgets for parser and include traversal) over ~20k generated multi-file workspaces per quick run - semantic stress patterns, name-colliding 'soup' programs, their typing prefixes and single-token edits, grammar programs, seed and real LLVM files - each swept with the full query set at every offset (small files) or every token boundary.",
+   note="acyclic include graphs only (cycles: C16); 256 MiB stacks; in-memory FileSystem implementation of the harness",
+   technique="property-based testing / fuzzing of the analysis API with crash isolation"),
+ "C06": dict(cat="exploration", design="§5 C06",
+   text="Oracle-free coherence invariant between goto_definition and references, checked at first/middle/last offset of every identifier token of every file of ~20k generated, mutated and real workspaces.",
+   note="identifier tokens are located with the repository's own parser",
+   technique="property-based testing: metamorphic/invariant oracle over generated workspaces"),
+ "C17": dict(cat="exploration", design="§5 C17",
+   text="Validity predicate on every range of every result of the full query sweep over C03's workspaces plus non-ASCII / CRLF / cut-inside-token variants (~60k workspaces per quick run).",
+   note="workspace = key set of diagnostics(); text of a file = what the harness' FileSystem served",
+   technique="property-based testing: validity predicate over all query results"),
 }
 
 REASON_WIP = "check not built yet in this session (work in progress; see DESIGN.md for the planned generator and oracle)"
